@@ -856,8 +856,15 @@ func (ex *Exec) intrinsic(f *frame, st *State, callee *ssa.Function, cc *ssa.Cal
 		ex.note("intrinsic: Time.Unix() = floor(nanos / 1e9)")
 		return true
 	case "(time.Time).UnixNano":
+		// the documented behaviour: the nanoseconds since the epoch when they fit in an int64 (years 1678 to 2262),
+		// otherwise undefined
 		nanos := sc.declareFun("time.nanos", []string{args[0].Sort}, SInt)
-		set(app(SInt, nanos, args[0]))
+		n := app(SInt, nanos, args[0])
+		r := sc.freshConst(hint+"#unixnano", SInt)
+		inRange := and(app(SBool, "<=", Term{"(- 9223372036854775808)", SInt}, n), app(SBool, "<=", n, Term{"9223372036854775807", SInt}))
+		ex.assume(st, implies(inRange, eq(r, n)))
+		set(r)
+		ex.note("intrinsic: Time.UnixNano() = nanos when they fit in 64 bits, otherwise unspecified")
 		return true
 	case "(time.Time).Add":
 		t := sc.freshConst("tadd", args[0].Sort)
